@@ -119,6 +119,14 @@ func registerIntrinsics(P *Program) {
 		}
 		return r
 	}
+	in[sa+"NoLargeAlloc"] = func(fr *frame, args []Value) Value {
+		m := fr.m
+		save := m.allocLimit
+		m.allocLimit = m.concInt(args[0], "alloc limit")
+		defer func() { m.allocLimit = save }()
+		m.call(fr, fr.m.curPos, args[1], nil)
+		return nil
+	}
 	in[sa+"Param"] = func(fr *frame, args []Value) Value {
 		m := fr.m
 		name := m.concStr(args[0], "param name")
@@ -193,6 +201,7 @@ func registerIntrinsics(P *Program) {
 	}
 	in["internal/bytealg.MakeNoZero"] = func(fr *frame, args []Value) Value {
 		m := fr.m
+		m.checkAllocLimit(args[0].(*Term), true, 1)
 		n := m.concretizeAlloc(args[0].(*Term), true, "MakeNoZero")
 		out := make([]Value, n)
 		z := m.tb.Const(8, 0)
@@ -260,6 +269,7 @@ func registerIntrinsics(P *Program) {
 	}
 	in["(*strings.Builder).copyCheck"] = func(fr *frame, args []Value) Value { return nil }
 	in["strings.Clone"] = func(fr *frame, args []Value) Value { return args[0] }
+	in["internal/stringslite.Clone"] = in["strings.Clone"]
 
 	// ---- unsafe builtins appear as calls to ssa.Builtin; handled in callBuiltin ----
 
